@@ -136,7 +136,7 @@ func TestVF_C21(t *testing.T) {
 		"(resp. s in total), is the same set in the LRU-cached sub-ring (a second computation), every GetN(k<RF) endpoint lies in that set, and placements are identical "+
 		"before and after the tenant was evicted from the cache and for 4 concurrent goroutines (3 tenants each) on a fresh ring; race detector on; "+
 		"distinct = (configuration, tenant) with a successfully built shard smaller than the whole ring", nTenants, nSeries))
-	n := r.N(80, 800)
+	n := r.N(80, 600)
 	r.Require(int64(n)*int64(nTenants)/2, n)
 	r.Assume("the 'configured number of nodes per availability zone' is ceil(shard size / number of zones) (ShuffleShardExpectedInstancesPerZone, documented 'shard_size/number_of_azs is chosen from each availability zone')")
 	r.Assume("override globs are well-formed; an override without tenant_matcher_type is an exact override (config.go: exact 'is also the default one')")
